@@ -64,23 +64,18 @@ Proof.
   apply Nat.eqb_eq in E. lia. apply Nat.eqb_neq in E. rewrite IH by lia. lia.
 Qed.
 
-Lemma win_agg_with_spec : forall op w, win_agg_with agg_spec op w = win_agg op w.
-Proof. intros [] w; reflexivity. Qed.
+Lemma window_with_spec_l : forall op w times c, window_with agg_spec op w times c = window_spec op w times c.
+Proof. reflexivity. Qed.
 
-Lemma window_with_spec_l : forall op w times c, window_with agg_spec false op w times c = window_spec op w times c.
+(* rows already in time order: the spec is the rolling aggregate in row order (no reordering is involved) *)
+Lemma window_spec_sorted_l : forall op w times c, List.length times = List.length c -> nondecr times ->
+  window_spec op w times c = windows_sorted op w c.
 Proof.
-  reflexivity.
-Qed.
-
-(* pandas writes the time-sorted results back by position: correct exactly when the rows are already in time order *)
-Lemma window_pd_sorted_l : forall op w times c, List.length times = List.length c -> nondecr times ->
-  window_pd op w times c = window_spec op w times c.
-Proof.
-  intros op w times c L S. rewrite <- window_with_spec_l. unfold window_pd, window_with.
+  intros op w times c L S. unfold window_spec.
   rewrite time_order_sorted by auto. rewrite L. rewrite map_nth_seq.
-  set (res := map (fun i => win_agg_with agg_spec op (window_at w i c)) (seq 0 (List.length c))).
-  assert (Lr : List.length res = List.length c) by (unfold res; rewrite map_length, seq_length; reflexivity).
-  rewrite <- (map_nth_seq res None) at 1. rewrite Lr. apply map_ext_in. intros i Hi. apply in_seq in Hi.
+  set (res := windows_sorted op w c).
+  assert (Lr : List.length res = List.length c) by (unfold res; apply windows_sorted_length).
+  symmetry. rewrite <- (map_nth_seq res None) at 1. rewrite Lr. symmetry. apply map_ext_in. intros i Hi. apply in_seq in Hi.
   rewrite pos_of_seq by lia. f_equal. lia.
 Qed.
 
